@@ -12,6 +12,8 @@
 #include <sstream>
 #include <cmath>
 #include <cctype>
+#include <limits>
+#include <stdexcept>
 
 namespace err = logmessage::runtime;
 using namespace sqf::runtime;
@@ -115,7 +117,15 @@ namespace
             {
                 size_t end;
                 for (end = newoff; format[end] >= '0' && format[end] <= '9'; ++end);
-                auto num = std::stoi(format.substr(newoff, end - newoff));
+                int num;
+                try
+                {
+                    num = std::stoi(format.substr(newoff, end - newoff));
+                }
+                catch (const std::out_of_range&)
+                { // more digits than an int can hold: no such element, reported as out of range below
+                    num = std::numeric_limits<int>::max();
+                }
                 newoff = end;
                 if (num >= static_cast<int>(r->size()))
                 {
